@@ -981,9 +981,45 @@ func c16Random(p *PRNG, n int) []c16Step {
 		if y >= 1 && y <= 100 {
 			regs = append(regs, reg{nm, h + y*c16Bpy})
 		}
+		// every fifth registration is followed by one of the module's other messages about the same name, sent by
+		// the registrant or by somebody else (own generator: the registrations drawn above stay what they were)
+		c16OtherN++
+		if c16OtherN%5 == 0 {
+			q := NewPRNG(uint64(c16OtherN) * 7919)
+			sender := who
+			if q.Chance(1, 3) {
+				sender = PickOne(q, accts)
+			}
+			lname := strings.ToLower(nm)
+			var m sdk.Msg
+			switch q.Intn(8) {
+			case 0:
+				m = &rnstypes.MsgList{Creator: sender, Name: lname, Price: sdk.NewInt64Coin("ujkl", 1+q.I64n(5_000_000))}
+			case 1:
+				m = &rnstypes.MsgDelist{Creator: sender, Name: spell(nm)}
+			case 2:
+				m = &rnstypes.MsgUpdate{Creator: sender, Name: lname, Data: "{}"}
+			case 3:
+				m = &rnstypes.MsgAddRecord{Creator: sender, Name: lname, Value: PickOne(q, accts), Data: "{}", Record: PickOne(q, []string{"www", "till"})}
+			case 4:
+				m = &rnstypes.MsgDelRecord{Creator: sender, Name: "www." + lname}
+			case 5:
+				m = &rnstypes.MsgBid{Creator: PickOne(q, accts), Name: lname, Bid: sdk.NewInt64Coin("ujkl", 1+q.I64n(3_000_000))}
+			case 6:
+				m = &rnstypes.MsgCancelBid{Creator: PickOne(q, accts), Name: lname}
+			default:
+				m = &rnstypes.MsgMakePrimary{Creator: sender, Name: lname}
+			}
+			steps = append(steps, c16Step{Msg: m, MsgAt: h})
+			if q.Chance(1, 2) { // ... and the listing, if there is one, is withdrawn again
+				steps = append(steps, c16Step{Msg: &rnstypes.MsgDelist{Creator: who, Name: lname}, MsgAt: h})
+			}
+		}
 	}
 	return steps
 }
+
+var c16OtherN int
 
 func runC16(r *RunCtx) error {
 	r.Sum.Rule = "function level: GetCostOfName on the (name, tld) GetNameAndTLD derives for lengths 0..12 x every TLD; history level: scripted histories (lapsed name re-registered by another / the same account at height 2e7, rejected year counts, heights Expires-1/Expires/Expires+1, funds one unit short, upper-case creator, int64 boundaries) then random histories of MsgRegisterName / MsgRegister / RegisterRNSName by 5 accounts over 2..5 names at non-decreasing heights on the assembled app; one evaluation = one function call or one registration step; non-trivial = distinct (kind, creator, name, years, name state, height, outcome) step that succeeded or addressed an existing record"
